@@ -220,6 +220,14 @@ def _oracle_variants(case):
     if ref[0] != [(case["seed"], (0,)), (case["seed"], (1,))]:
         return (f"spawn_sseq(2) inside a fresh Context({case['seed']}) returns children {ref[0]}, not the context's own children",
                 dict(sig, what="spawn-not-from-top"))
+    # successive spawns of the same sequence give different children
+    _reset()
+    with rnd.Context(case["seed"]):
+        k1 = [tuple(int(k) for k in c.spawn_key) for c in rnd.spawn_sseq(2)]
+        k2 = [tuple(int(k) for k in c.spawn_key) for c in rnd.spawn_sseq(2)]
+    if len(set(k1 + k2)) != 4:
+        return (f"two successive spawn_sseq(2) calls inside one context return children {k1} and {k2}: not all distinct",
+                dict(sig, what="spawn-children-repeat"))
     # same sequence object nested
     if not pre():
         return None
